@@ -325,6 +325,13 @@ MsgLoop:
 				return
 			}
 			continue MsgLoop
+		default:
+			// Frame types 3 to 7 are reserved. There is no message to hand
+			// to the router (a nil message would crash it), and the rest of
+			// the stream cannot be trusted: end this connection.
+			rs.log.Println("Received frame of reserved type", header[0]&0x07, "- closing")
+			_ = rs.conn.Close()
+			return
 		}
 
 		// It is OK for the router to block a client since routing should be
